@@ -21,11 +21,12 @@ package flight12
 
 //@ func selectEllipticCurve
 //@ ensures in-remote: result1 ==> exists(0, len(remoteCurves), func(i int) bool { return remoteCurves[i] == result0 })
-//@ ensures in-local: result1 ==> exists(0, len(old(localCurves)), func(j int) bool { return old(localCurves)[j] == result0 })
+//@ ensures in-local: result1 ==> exists(0, len(localCurves), func(j int) bool { return localCurves[j] == result0 })
 //@ ensures never-hybrid: result1 ==> result0 != elliptic.X25519MLKEM768
-//@ ensures first-in-remote: result1 ==> exists(0, len(remoteCurves), func(i int) bool { return remoteCurves[i] == result0 &&
-//@    forall(0, i, func(k int) bool { return remoteCurves[k] == elliptic.X25519MLKEM768 || forall(0, len(old(localCurves)), func(j int) bool { return remoteCurves[k] != old(localCurves)[j] }) }) })
+//@ ensures first-in-remote: result1 ==> forall(0, len(remoteCurves), func(i int) bool { return exists(0, i+1, func(k int) bool { return remoteCurves[k] == result0 }) ||
+//@    remoteCurves[i] == elliptic.X25519MLKEM768 || forall(0, len(localCurves), func(j int) bool { return remoteCurves[i] != localCurves[j] }) })
 //@ ensures fails-iff-disjoint: !result1 ==> forall(0, len(remoteCurves), func(i int) bool { return remoteCurves[i] == elliptic.X25519MLKEM768 ||
-//@    forall(0, len(old(localCurves)), func(j int) bool { return remoteCurves[i] != old(localCurves)[j] }) })
+//@    forall(0, len(localCurves), func(j int) bool { return remoteCurves[i] != localCurves[j] }) })
 //@ ensures zero-on-failure: !result1 ==> result0 == 0
+//@ loop #1: scanned: forall(0, idx, func(i int) bool { return remoteCurves[i] == HYBRID() || forall(0, len(localCurves), func(j int) bool { return remoteCurves[i] != localCurves[j] }) })
 //@ end
